@@ -65,6 +65,11 @@ def run(ctx):
     for n, a, k, v in list(writes):
         if isinstance(v, ast.Name):
             held[v.id] = (a, k)
+        # chained form `ids = self.topic_partitions[topic] = []`: the other targets name the entry as well
+        if n.kind == "stmt" and isinstance(n.stmt, ast.Assign) and len(n.stmt.targets) > 1:
+            for t_ in n.stmt.targets:
+                if isinstance(t_, ast.Name):
+                    held[t_.id] = (a, k)
     for i in sorted(body):
         n = cf.nodes[i]
         for c in n.calls():
@@ -87,16 +92,18 @@ def run(ctx):
     for n, v in lead:
         ogs = value_origins(cf, n.id, v, params=mt.params) if isinstance(v, ast.Name) else [(n.id, v)]
         for dn, e in (ogs or [(n.id, v)]):
-            cases.append((dn, e))
+            # a conditional expression contributes one case per arm, with what its test implies
+            for f_, e_ in value_cases(ctx, mt, cf.nodes[dn], e):
+                cases.append((dn, e_, f_))
     okl = len(cases) >= 2
     total = True
     n_none = n_entry = 0
-    for dn, e in cases:
+    for dn, e, fcase in cases:
         e = at(ctx, mt, dn, e)
         if isinstance(e, ast.Constant) and e.value is None:
             n_none += 1
-            ms = sorted({t.split(".leader")[0].split()[-1].lstrip("(") for t, pol in resolved_facts(facts[dn]) if ".leader" in t})
-            okl = okl and any(facts_imply(prog, mt, facts[dn], {"a": "%s.leader == -1" % m_, "b": "%s.leader in %s" % (m_, B_)},
+            ms = sorted({t.split(".leader")[0].split()[-1].lstrip("(") for t, pol in resolved_facts(fcase) if ".leader" in t})
+            okl = okl and any(facts_imply(prog, mt, fcase, {"a": "%s.leader == -1" % m_, "b": "%s.leader in %s" % (m_, B_)},
                                           lambda env: env["a"] or not env["b"]) for m_ in ms)
             continue
         key_e = e.slice if isinstance(e, ast.Subscript) and norm(e.value) == B_ else (
@@ -106,9 +113,9 @@ def run(ctx):
             continue
         n_entry += 1
         m_ = norm(key_e)[:-len(".leader")]
-        okl = okl and facts_imply(prog, mt, facts[dn], {"a": "%s.leader == -1" % m_}, lambda env: not env["a"])
+        okl = okl and facts_imply(prog, mt, fcase, {"a": "%s.leader == -1" % m_}, lambda env: not env["a"])
         if isinstance(e, ast.Subscript):
-            total = total and facts_imply(prog, mt, facts[dn], {"b": "%s.leader in %s" % (m_, B_)}, lambda env: env["b"])
+            total = total and facts_imply(prog, mt, fcase, {"b": "%s.leader in %s" % (m_, B_)}, lambda env: env["b"])
     okl = okl and n_none >= 1 and n_entry >= 1
     r.check(total, "%s#leader-lookup-total" % mt.qname, "the leader id a partition names is looked up in the reply's broker list without a membership "
             "test (or .get)", where(mt, lp[0].stmt), "a reply that names a leader its own broker list does not contain (a broker that has just gone "
@@ -153,16 +160,27 @@ def run(ctx):
             "partial refresh (one topic) prunes every other broker")
     um = [c for c in calls_in(ub, "updateMetadata")]
     deps = "?"
-    okm = len(um) == 1 and isinstance(um[0].func.value, ast.Subscript)
+    okm = len(um) == 1
+    via_get = None
     if okm:
         loops = [x for x in walk_body_shallow(ub.body) if isinstance(x, ast.For) and um[0] in list(ast.walk(x))]
-        okm = len(loops) == 1 and isinstance(loops[0].target, ast.Tuple) and norm(um[0].func.value.slice) == unparse(loops[0].target.elts[0]) and \
-            norm(um[0].args[0]) == unparse(loops[0].target.elts[1]) and norm(loops[0].iter).endswith(".items()")
+        okm = len(loops) == 1 and isinstance(loops[0].target, ast.Tuple) and norm(um[0].args[0]) == unparse(loops[0].target.elts[1]) and \
+            norm(loops[0].iter).endswith(".items()")
     if okm:
-        un = cu.containing(um[0])[0]
-        deps = sorted(norm(t.stmt.test) for t, lab in cu.control_deps_transitive(un.id) if t.kind == "test")
+        # the client that is told: the one registered under the entry's own id - `self.clients[id]`, or what `.get(id)` gave
         kv = unparse(loops[0].target.elts[0])
-        okm = deps in (["%s not in self.clients" % kv], ["%s in self.clients" % kv])
+        un = cu.containing(um[0])[0]
+        recv_ = um[0].func.value
+        ogr = value_origins(cu, un.id, recv_, params=ub.params) if isinstance(recv_, ast.Name) else [(un.id, recv_)]
+        forms = {norm(e_) for _d, e_ in (ogr or [])}
+        okm = bool(forms) and forms <= {"self.clients[%s]" % kv, "self.clients.get(%s)" % kv}
+        via_get = norm(recv_) if forms == {"self.clients.get(%s)" % kv} and isinstance(recv_, ast.Name) else None
+    if okm:
+        deps = sorted(norm(t.stmt.test) for t, lab in cu.control_deps_transitive(un.id) if t.kind == "test")
+        allowed_ = [["%s not in self.clients" % kv], ["%s in self.clients" % kv]]
+        if via_get:
+            allowed_ += [["%s is not None" % via_get], ["%s is None" % via_get], [via_get], ["not %s" % via_get]]
+        okm = deps in allowed_
     r.check(okm, "%s#own-entry" % ub.qname, "an existing client is not updated with its own entry whenever that client exists "
             "(conditions: %s)" % (deps,), where(ub, ub.node),
             "broker re-addressed under the same id: the `unchanged` test compares with a cache that was updated two lines earlier, the "
